@@ -552,10 +552,9 @@ func ruleSchemaTables(c *Check, rule, rSkip string) {
 			// read off the reader's paths; the syntactic table is a fallback for
 			// shapes the path extraction does not resolve
 			t, skip, ok := readerTableP(c, rule, r[0]+".(*"+r[1]+")."+r[2])
-			if !ok || !fwEqual(t, ref) || !skip {
-				if t2, skip2, ok2 := readerTable(c, r[0], r[1], r[2]); ok2 && fwEqual(t2, ref) && skip2 {
-					t, skip, ok = t2, skip2, ok2
-				}
+			if !ok {
+				// not resolved from the paths: the syntactic table decides
+				t, skip, ok = readerTable(c, r[0], r[1], r[2])
 			}
 			if os.Getenv("LSDEBUG") != "" {
 				fmt.Fprintln(os.Stderr, "DEBUG reader", r, t, skip, ok)
@@ -1738,4 +1737,215 @@ func readerTableP(c *Check, rule, fnName string) (tbl []fieldWT, hasDefaultSkip 
 		hasDefaultSkip = false
 	}
 	return sortFW(tbl), hasDefaultSkip, ok
+}
+
+// END-TEST-EVERY-FIELD (C07-R4, C08-R2): a cursor parser that decodes one field
+// per loop round must compare its cursor with the length of the data between
+// any two tag reads — before reading the next tag (test at the top of the
+// loop, on the loop-carried cursor) or after the field just handled (test at
+// the bottom, on the cursor value carried into the next round). A round that
+// goes on without that test reads a tag where the message may already have
+// ended: a message whose last field takes that path (an unknown field, in the
+// cases that matter for forward compatibility) fails to decode.
+func ruleEndTestEveryField(c *Check, rule string, names ...string) {
+	for _, name := range names {
+		fn, paths := c.walkFn(rule, name, WalkConfig{})
+		if paths == nil {
+			continue
+		}
+		n, bad := 0, 0
+		for i := range paths {
+			p := &paths[i]
+			if !strings.HasPrefix(p.End, "backedge:") {
+				continue
+			}
+			// only rounds that read a tag at the cursor
+			if len(callsOf(p, "csproto.DecodeVarint")) == 0 {
+				continue
+			}
+			n++
+			carried := map[string]bool{}
+			for _, r := range p.Rets {
+				if eq := strings.Index(r, "="); eq > 0 {
+					carried[r[eq+1:]] = true
+				}
+			}
+			tested := false
+			for _, cd := range p.Conds() {
+				a := cd.Atom
+				if a.Kind != "cmp" || a.Dom != "int" {
+					continue
+				}
+				for _, side := range [][2]string{{a.A, a.B}, {a.B, a.A}} {
+					cur, other := side[0], side[1]
+					if !strings.HasPrefix(other, "len(") {
+						continue
+					}
+					if carried[cur] || strings.HasPrefix(cur, "loop:") {
+						tested = true
+					}
+				}
+			}
+			if !tested {
+				bad++
+				c.Bad(rule, name+"/end-test", "a round of the field loop goes on to read the next tag without having compared the cursor with the length of the data: a message that ends after the field handled on this path (e.g. an unknown field written last by a newer version) is read past its end and fails to decode", c.pathPos(p), describe(c, p))
+			}
+		}
+		if bad == 0 {
+			c.Ok(rule, name+"/end-test", fmt.Sprintf("all %d continuing rounds of the field loop compare the cursor with the length of the data before the next tag is read", n), c.P.Pos(fn.Pos()))
+		}
+		c.Floor(rule, n, 2, "continuing rounds of "+name)
+	}
+}
+
+// ENTRY-DECODED-INTO-ZERO (C07-R5, C02-R8): KV.Unmarshal only assigns the fields
+// present in the message (an absent value, flags or timestamp field leaves the
+// receiver's field alone; DBI.Append omits empty ones). Every decode of one
+// entry must therefore start from a zero KV: a fresh local, or a target that is
+// overwritten with the zero value first. Decoding into a KV that still holds
+// the previous entry makes an entry without a value inherit its neighbour's.
+func ruleEntryDecodedIntoZero(c *Check, rule string) {
+	target := c.P.Func("snapshot.(*KV).Unmarshal")
+	if target == nil {
+		c.Undecided(rule, "snapshot.(*KV).Unmarshal", "not found", "")
+		return
+	}
+	wk := &Walker{loops: map[*ssa.Function]*loopInfo{}}
+	inLoopWithout := func(call ssa.Instruction, def *ssa.BasicBlock) bool {
+		for _, body := range wk.loopsOf(call.Parent()).headers {
+			if body[call.Block()] && !body[def] {
+				return true
+			}
+		}
+		return false
+	}
+	isZeroVal := func(v ssa.Value) bool {
+		if k, ok := v.(*ssa.Const); ok {
+			return k.Value == nil
+		}
+		ld, ok := v.(*ssa.UnOp)
+		if !ok || ld.Op != token.MUL {
+			return false
+		}
+		al, ok := ld.X.(*ssa.Alloc)
+		if !ok || al.Referrers() == nil {
+			return false
+		}
+		for _, r := range *al.Referrers() {
+			switch r.(type) {
+			case *ssa.UnOp, *ssa.DebugRef:
+			default:
+				return false // a field of the literal is set
+			}
+		}
+		return true
+	}
+	var fresh func(v ssa.Value, at ssa.Instruction, d int) (bool, string)
+	fresh = func(v ssa.Value, at ssa.Instruction, d int) (bool, string) {
+		if d > 3 {
+			return false, "too many levels of indirection"
+		}
+		// overwritten with the zero value before, in a dominating position
+		if v.Referrers() != nil {
+			for _, r := range *v.Referrers() {
+				st, ok := r.(*ssa.Store)
+				if !ok || st.Addr != v || !isZeroVal(st.Val) || st.Parent() != at.Parent() {
+					continue
+				}
+				if st.Block() == at.Block() {
+					for _, in := range st.Block().Instrs {
+						if in == ssa.Instruction(st) {
+							return true, ""
+						}
+						if in == at {
+							break
+						}
+					}
+					continue
+				}
+				if st.Block().Dominates(at.Block()) && !inLoopWithout(at, st.Block()) {
+					return true, ""
+				}
+			}
+		}
+		switch x := v.(type) {
+		case *ssa.Alloc:
+			if x.Referrers() != nil {
+				for _, r := range *x.Referrers() {
+					switch u := r.(type) {
+					case *ssa.Store:
+						if ld, ok := u.Val.(*ssa.UnOp); ok && ld.Op == token.MUL && ld.X == ssa.Value(x) {
+							continue // a named result copied onto itself at a return
+						}
+						if u.Addr == ssa.Value(x) && !isZeroVal(u.Val) {
+							return false, "the local is assigned before it is decoded into"
+						}
+					case *ssa.FieldAddr:
+						if u.Referrers() != nil {
+							for _, fr := range *u.Referrers() {
+								if st, ok := fr.(*ssa.Store); ok && st.Addr == ssa.Value(u) {
+									return false, "a field of the local is assigned outside the decoder"
+								}
+							}
+						}
+					}
+				}
+			}
+			if inLoopWithout(at, x.Block()) {
+				return false, "the local is declared outside the loop that decodes into it"
+			}
+			return true, ""
+		case *ssa.Parameter:
+			fn := x.Parent()
+			idx := -1
+			for i, p := range fn.Params {
+				if p == x {
+					idx = i
+				}
+			}
+			n := 0
+			for _, g := range c.P.RepoFuncs() {
+				for _, b := range g.Blocks {
+					for _, in := range b.Instrs {
+						ci, ok := in.(ssa.CallInstruction)
+						if !ok || !sameFunc(ci.Common().StaticCallee(), fn) || idx >= len(ci.Common().Args) {
+							continue
+						}
+						n++
+						if ok2, why := fresh(ci.Common().Args[idx], in, d+1); !ok2 {
+							return false, "caller " + QualName(g) + ": " + why
+						}
+					}
+				}
+			}
+			if n == 0 {
+				return false, "no caller establishes a zero target"
+			}
+			return true, ""
+		}
+		return false, "the target is neither a fresh local nor overwritten with the zero value first"
+	}
+	n, bad := 0, 0
+	for _, g := range c.P.RepoFuncs() {
+		if strings.Contains(QualName(g), "gogosnapshot") {
+			continue
+		}
+		for _, b := range g.Blocks {
+			for _, in := range b.Instrs {
+				ci, ok := in.(ssa.CallInstruction)
+				if !ok || ci.Common().StaticCallee() != target || len(ci.Common().Args) == 0 {
+					continue
+				}
+				n++
+				if okf, why := fresh(ci.Common().Args[0], in, 0); !okf {
+					bad++
+					c.Bad(rule, QualName(g)+"/entry-decoded-into-zero", "KV.Unmarshal is called on a KV that may still hold the previous entry ("+why+"): the decoder only assigns the fields present in the message, so an entry without a value, flags or timestamp inherits its neighbour's", c.P.InstrPos(in), nil)
+				}
+			}
+		}
+	}
+	if bad == 0 {
+		c.Ok(rule, "entry-decoded-into-zero", fmt.Sprintf("all %d calls of KV.Unmarshal decode into a fresh local or a target overwritten with the zero value first", n), "")
+	}
+	c.Floor(rule, n, 1, "calls of KV.Unmarshal")
 }
